@@ -341,6 +341,30 @@ pub fn model_case_with(id: usize, text: &str, out: &mut Out, origin: &str, nontr
     out.case(case.0, res, format!("{} decoder={} text={:?}", origin, DECODERS[id], text), nontrivial);
 }
 
+/// raw bytes through the composed byte -> line -> value model (entry `decb`)
+pub fn model_case_bytes(id: usize, bytes: &[u8], out: &mut Out, origin: &str) {
+    let mut case = Line::entry("decb");
+    case.i(id as i128);
+    for b in bytes {
+        case.i(*b as i128);
+    }
+    let res = match decode_dump(id, bytes) {
+        Ok(s) => format!("0 {}", s),
+        Err(e) => match e.as_str() {
+            "io:Other" => "1 1".to_string(),
+            "io:UnexpectedEof" => "1 2".to_string(),
+            "io:PermissionDenied" => "1 3".to_string(),
+            "io:TimedOut" => "1 4".to_string(),
+            "io:WouldBlock" => "1 5".to_string(),
+            "io:WriteZero" => "1 6".to_string(),
+            other => format!("<{}>", other),
+        },
+    };
+    out.count(&format!("decb.{}", DECODERS[id]));
+    let hex: String = bytes.iter().take(600).map(|b| format!("{:02x}", b)).collect();
+    out.case(case.0, res, format!("{} decoder={} bytes(hex)={}", origin, DECODERS[id], hex), bytes.len() >= 40);
+}
+
 pub fn texts(tier: &str, seed: u64, mut f: impl FnMut(&str, &str)) {
     let mut r = Rng::new(seed ^ 0xDEC0);
     let n = if tier == "thorough" { 3000 } else { 220 };
